@@ -243,13 +243,19 @@ func releaseScratch(b *[]byte) {
 // This function returns the next byte slice that should be read.
 // `b` must be a valid payload coming from a Header frame.
 func (hp *HPACK) Next(hf *HeaderField, b []byte) ([]byte, error) {
-	return hp.nextField(hf, true, 0, b)
+	b, _, err := hp.nextField(hf, true, 0, b)
+
+	return b, err
 }
 
 // nextField decodes one header field. blockStart says whether b is the start
 // of a header block, which is the only place a dynamic table size update may
 // appear. A CONTINUATION carries on a block rather than starting one.
-func (hp *HPACK) nextField(hf *HeaderField, blockStart bool, fieldsProcessed int, b []byte) ([]byte, error) {
+//
+// The bool reports whether hf was filled in. It is false, with no error, when b held
+// nothing but dynamic table size updates: they have been applied and there is
+// no field, which is not the same as a field with an empty name and value.
+func (hp *HPACK) nextField(hf *HeaderField, blockStart bool, fieldsProcessed int, b []byte) ([]byte, bool, error) {
 	var (
 		n   uint64
 		c   byte
@@ -258,7 +264,8 @@ func (hp *HPACK) nextField(hf *HeaderField, blockStart bool, fieldsProcessed int
 
 loop:
 	if len(b) == 0 {
-		return b, nil
+		// nothing but size updates: they are applied, there is no field
+		return b, false, nil
 	}
 
 	c = b[0]
@@ -272,12 +279,12 @@ loop:
 	// https://httpwg.org/specs/rfc7541.html#indexed.header.representation
 	case c&indexByte == indexByte: // 1000 0000
 		if b, n, err = readInt(7, b); err != nil {
-			return b, err
+			return b, false, err
 		}
 
 		hf2 := hp.peek(n)
 		if hf2 == nil {
-			return b, NewError(FlowControlError, fmt.Sprintf("index field not found: %d. table:\n%s", n,
+			return b, false, NewError(FlowControlError, fmt.Sprintf("index field not found: %d. table:\n%s", n,
 				headerFieldsToString(hp.dynamic, maxIndex)))
 		}
 
@@ -290,12 +297,12 @@ loop:
 		// Reading key
 		if c != 64 { // Read key as index
 			if b, n, err = readInt(6, b); err != nil {
-				return b, err
+				return b, false, err
 			}
 
 			hf2 := hp.peek(n)
 			if hf2 == nil {
-				return b, NewError(FlowControlError, fmt.Sprintf("literal indexed field not found: %d. table:\n%s",
+				return b, false, NewError(FlowControlError, fmt.Sprintf("literal indexed field not found: %d. table:\n%s",
 					n, headerFieldsToString(hp.dynamic, maxIndex)))
 			}
 
@@ -319,7 +326,7 @@ loop:
 			if len(b) == 0 {
 				// The field is cut short: its value is in the bytes that have
 				// not arrived yet.
-				return b, ErrUnexpectedSize
+				return b, false, ErrUnexpectedSize
 			}
 
 			scratch := acquireScratch()
@@ -349,12 +356,12 @@ loop:
 		// Reading key
 		if c&15 != 0 { // Reading key as index
 			if b, n, err = readInt(4, b); err != nil {
-				return b, err
+				return b, false, err
 			}
 
 			hf2 := hp.peek(n)
 			if hf2 == nil {
-				return b, NewError(FlowControlError, fmt.Sprintf("non indexed field not found: %d. table:\n%s", n,
+				return b, false, NewError(FlowControlError, fmt.Sprintf("non indexed field not found: %d. table:\n%s", n,
 					headerFieldsToString(hp.dynamic, maxIndex)))
 			}
 
@@ -378,7 +385,7 @@ loop:
 			if len(b) == 0 {
 				// The field is cut short: its value is in the bytes that have
 				// not arrived yet.
-				return b, ErrUnexpectedSize
+				return b, false, ErrUnexpectedSize
 			}
 
 			scratch := acquireScratch()
@@ -398,7 +405,7 @@ loop:
 	// https://tools.ietf.org/html/rfc7541#section-6.3
 	case c&32 == 32: // 001- ----
 		if b, n, err = readInt(5, b); err != nil {
-			return b, err
+			return b, false, err
 		}
 		// A dynamic table size update must be the first thing in a header
 		// block. The peer sends it in the first block after it changed the
@@ -406,11 +413,11 @@ loop:
 		// trailer block can carry one when the SETTINGS frame that prompted it
 		// arrived while the request headers were already in flight.
 		if !blockStart || fieldsProcessed > 0 {
-			return nil, ErrDynamicUpdate
+			return nil, false, ErrDynamicUpdate
 		}
 
 		if n > uint64(hp.maxTableSizeSettings) {
-			return nil, ErrDynamicUpdateMaxTableSize
+			return nil, false, ErrDynamicUpdateMaxTableSize
 		}
 
 		hp.maxTableSize = uint32(n)
@@ -419,7 +426,7 @@ loop:
 		goto loop
 	}
 
-	return b, err
+	return b, err == nil, err
 }
 
 // readInt reads int type from header field.
